@@ -2,7 +2,7 @@
    Only statements, closed by [exact], with Print Assumptions.  Models: Model/LspFrame.v (frame reader and
    writer over the byte stream), Model/LspDoc.v (document mirror over bytes and Z positions),
    Model/LspServe.v (message loop, rate limiter, document notifications); specification: Spec/LspSpec.v
-   (the protocol's rule for applying an edit: UTF-16 columns, clamping), Model/LspMirror.v (how a
+   (the protocol's rule for applying an edit: lines ended by LF, CR LF or CR; UTF-16 columns; clamping), Model/LspMirror.v (how a
    protocol-level history is presented to the mirror). *)
 From Coq Require Import List NArith ZArith Bool.
 From GV Require Import Model.LspDoc Model.LspFrame Model.LspServe Spec.LspSpec Model.LspMirror.
@@ -172,6 +172,14 @@ Proof. vm_compute. reflexivity. Qed.
 Example ex_clamp : apply_change (enc ex_doc) (split_lines (enc ex_doc)) (Range 5 0 (-1) (-1)) [88]
                    = Val (enc (ex_doc ++ [88])).
 Proof. vm_compute. reflexivity. Qed.
+
+(* CR LF is one terminator: a position past the end of line 0 of "ab\r\ncd" is before the CR; a lone CR
+   starts a new line ("a\rb": line 1 is "b") *)
+Example ex_crlf : apply_change (enc [97; 98; 13; 10; 99; 100]) (split_lines (enc [97; 98; 13; 10; 99; 100])) (Range 0 99 0 99) [88]
+                  = Val (enc [97; 98; 88; 13; 10; 99; 100])
+                  /\ spec_apply [97; 13; 98] 1 0 1 0 [88] = [97; 13; 88; 98]
+                  /\ split_lines [97; 98; 13; 10; 99; 13; 100; 10] = [[97; 98]; [99]; [100]; []].
+Proof. repeat split; vm_compute; reflexivity. Qed.
 
 Example ex_history :
   exists ds', dm_run [] (map (enc_op [117]) [SOpen 1 ex_doc; SOther (OpOpen [118] 7 [1]);
